@@ -24,10 +24,15 @@ pub enum Body {
     /// `DATA 0` / `DATA -0`: deliberately *not* tagged — two texts whose items compare equal as numbers
     /// (0.0 == -0.0) and still are different texts; the last one entered is the stored one
     Data,
-    /// a statement text that begins with a digit (`10 20`, `10 7=1`): tokenizes, so it is the text of
+    /// untagged `PRINT \"hello\"`, `\"Hello\"`, `\"HELLO\"` (texts that differ only in letter case inside a string) / a statement text that begins with a digit (`10 20`, `10 7=1`): tokenizes, so it is the text of
     /// line 10 (not line 1020, not a deletion); RUN reaching it fails with a syntax error in that line
     Num,
+    /// untagged `PRINT "hello"` / `"Hello"` / `"HELLO"`: texts that differ only in letter case inside a string
+    /// are different texts; which one a line shows must not depend on what else is, or was, stored
+    Say,
 }
+
+const SAY: &[&str] = &["hello", "Hello", "HELLO"];
 
 /// how the expected run of the stored program ends
 #[derive(Clone, Copy, Debug, PartialEq)]
@@ -95,6 +100,7 @@ fn body_text(body: &Body, tag: u32) -> String {
         Body::Word => format!("{} = {}", WORDS[tag as usize % WORDS.len()], tag),
         Body::Data => if tag % 2 == 0 { "DATA 0".to_string() } else { "DATA -0".to_string() },
         Body::Num => if tag % 2 == 0 { format!("{}", tag) } else { format!("{}=1", tag) },
+        Body::Say => format!("PRINT \"{}\"", SAY[tag as usize % 3]),
     }
 }
 
@@ -107,6 +113,7 @@ fn listed(key: u64, body: &Body, tag: u32) -> String {
         Body::Word => format!("{} {} = {}\n", key, WORDS[tag as usize % WORDS.len()], tag),
         Body::Data => format!("{} DATA {}\n", key, if tag % 2 == 0 { "0" } else { "-0" }),
         Body::Num => if tag % 2 == 0 { format!("{} {}\n", key, tag) } else { format!("{} {} = 1\n", key, tag) },
+        Body::Say => format!("{} PRINT \"{}\"\n", key, SAY[tag as usize % 3]),
     }
 }
 
@@ -125,6 +132,7 @@ fn expected_run(m: &ModelMap, from: Option<u64>) -> (Vec<Rec>, Vec<u64>, End) {
         path.push(*k);
         match b {
             Body::Print => recs.push(Rec::Print(format!("k{}\n", t))),
+            Body::Say => recs.push(Rec::Print(format!("{}\n", SAY[*t as usize % 3]))),
             Body::Rem | Body::Colons | Body::Word | Body::Data => {}
             Body::Stop => {
                 recs.push(Rec::Break(Some(*k)));
@@ -377,7 +385,7 @@ impl Prop for C04 {
     fn meta() -> Meta {
         Meta {
             level: "exploration",
-            rule: "Histories of 1-200 store operations over a per-run key pool that always may contain 0, 2^64-1, 2^64-2, 2^63, two adjacent keys and random u64 keys, spelled plainly, with leading zeros (up to 25 digits) or leading blanks/tabs: add, replace, delete (bare number), failed edit (illegal character, unterminated string, 1.2.3, the numerals 2^64 .. 2^64+3, bare or with text, which are not line numbers); bodies are PRINT / REM / STOP / a line of statement separators only / an assignment to a variable named like a command (TRACE, STATS, LIST, RUN, NEW) / untagged `DATA 0` and `DATA -0` (texts whose items compare equal as numbers and are still different texts: the last one entered is the stored one) / a statement text that begins with a digit (`10 20`, `10 7=1`: it tokenizes, so it is the text of line 10 — not line 1020 and not a deletion — and RUN must fail with a syntax error in exactly that line after printing everything before it); one entry in six is typed without a blank between number and statement; failed edits include a number followed only by Unicode blanks (NBSP, U+3000, VT, LF) and apostrophe comments, interleaved with LIST, RUN (with and without tracing), RUN broken after k ticks, and CONT — so that edits also arrive at a STOP breakpoint and at a host break in the middle of a run. Oracle: BTreeMap<u64,(body,tag)> reference; LIST must equal the map rendered in ascending key order AND the LIST of a twin interpreter that only ever received the final pairs once each in ascending order; RUN must print the tags (and trace the keys) in ascending key order up to the first STOP, CONT continues after it. Every body carries a unique tag so that each listed/printed line is attributable to one write. distinct_nontrivial = distinct op-sequence hashes among histories that end with >= 3 stored lines and performed >= 1 replace/delete.",
+            rule: "Histories of 1-200 store operations over a per-run key pool that always may contain 0, 2^64-1, 2^64-2, 2^63, two adjacent keys and random u64 keys, spelled plainly, with leading zeros (up to 25 digits) or leading blanks/tabs: add, replace, delete (bare number), failed edit (illegal character, unterminated string, 1.2.3, the numerals 2^64 .. 2^64+3, bare or with text, which are not line numbers); bodies are PRINT / REM / STOP / a line of statement separators only / an assignment to a variable named like a command (TRACE, STATS, LIST, RUN, NEW) / untagged `DATA 0` and `DATA -0` (texts whose items compare equal as numbers and are still different texts: the last one entered is the stored one) / untagged `PRINT \"hello\"`, `\"Hello\"`, `\"HELLO\"` (texts that differ only in letter case inside a string) / a statement text that begins with a digit (`10 20`, `10 7=1`: it tokenizes, so it is the text of line 10 — not line 1020 and not a deletion — and RUN must fail with a syntax error in exactly that line after printing everything before it); one entry in six is typed without a blank between number and statement; failed edits include a number followed only by Unicode blanks (NBSP, U+3000, VT, LF) and apostrophe comments, interleaved with LIST, RUN (with and without tracing), RUN broken after k ticks, and CONT — so that edits also arrive at a STOP breakpoint and at a host break in the middle of a run. Oracle: BTreeMap<u64,(body,tag)> reference; LIST must equal the map rendered in ascending key order AND the LIST of a twin interpreter that only ever received the final pairs once each in ascending order; RUN must print the tags (and trace the keys) in ascending key order up to the first STOP, CONT continues after it. Every body carries a unique tag so that each listed/printed line is attributable to one write. distinct_nontrivial = distinct op-sequence hashes among histories that end with >= 3 stored lines and performed >= 1 replace/delete.",
             real: &["abasic-core Interpreter program store (ProgramLines: HashMap + BTreeSet), line-number parser, LIST, RUN line ordering"],
             stub: &["the host", "BTreeMap reference model"],
             assumptions: &[
@@ -417,6 +425,7 @@ impl Prop for C04 {
         // swarm: one history in three may hold DATA 0 / DATA -0 lines, one in four statement texts that begin with a digit
         let datas = rng.chance(1, 3);
         let nums = rng.chance(1, 4);
+        let says = rng.chance(1, 3);
         let mut ops = vec![];
         for i in 0..n {
             let key = rng.pick(&keys);
@@ -428,6 +437,8 @@ impl Prop for C04 {
                         3 => Body::Colons,
                         4 if rng.chance(1, 2) => Body::Word,
                         5 if datas => Body::Data,
+                        5 if says => Body::Say,
+                        6 if says && !datas => Body::Say,
                         6 if datas && rng.chance(1, 2) => Body::Data,
                         7 if nums && rng.chance(1, 2) => Body::Num,
                         _ => Body::Print,
